@@ -76,7 +76,7 @@ func installHooks(s *Sim) {
 			defer cancel()
 			r := s.submit(&call{kind: callZKDial, src: owner, dst: "zk", query: "<dial>", ctx: ctx, zkc: c})
 			if r.err != nil {
-				c.dead = true
+				c.dead.Store(true)
 				return nil, r.err
 			}
 			return c, nil
@@ -110,7 +110,7 @@ func (s *Sim) drainHooks() {
 				d = x
 			}
 		}
-		if d == nil {
+		if d == nil || !d.alive {
 			continue
 		}
 		if h.phase == "enter" {
@@ -386,10 +386,11 @@ func (s *Sim) killDaemon(d *Daemon, graceful bool) {
 	}
 	d.alive = false
 	d.diedAt = s.now()
+	deadIncs.Store(d.inc, true)
 	d.cancel()
 	for _, c := range s.net.snapshot() {
 		if c.owner == d.inc {
-			c.dead = true
+			c.dead.Store(true)
 			s.zk.connClosed(c)
 		}
 	}
